@@ -94,9 +94,11 @@ def program(draw):
             # well-formed JSON ("\\ud800" escape) whose notebook holds a lone surrogate: it cannot be written as UTF-8
             reqs.append(["store_surrogate", {"merged": draw(st.integers(0, 2))}, draw(st.sampled_from(["source", "metadata"]))])
         elif k == "store_bad_merged":
-            reqs.append(["store_raw", {"merged": draw(st.sampled_from([5, "x", None, [], [1, 2]]))}])
+            reqs.append(["store_raw", {"merged": draw(st.sampled_from([5, "x", None, [], [1, 2], {}, {"cells": [], "metadata": {}},
+                                                                       {"nbformat": "4", "cells": "none"}]))}])
         elif k == "close":
-            reqs.append(["close", draw(st.sampled_from([{"exitCode": 0}, {"exitCode": 3}, {}, None, [1], "str"]))])
+            reqs.append(["close", draw(st.sampled_from([{"exitCode": 0}, {"exitCode": 3}, {"exitCode": "2"}, {}, None, [1], "str",
+                                                        {"exitCode": None}, {"exitCode": 2.5}, {"exitCode": [1]}, {"exitCode": True}]))])
         elif k == "bad_json":
             reqs.append(["raw", draw(st.sampled_from(["diff", "merge", "store", "closetool"])), draw(st.sampled_from(["{not json", "", "[1,2", "ÿþ"]))])
         elif k == "missing_key":
@@ -371,10 +373,14 @@ async def _session(case, out, top, cwd):
                 requested = shutdown["requested"] > sd_before
                 # a JSON object, or a body that is not JSON at all (the handler documents a fallback exit code for that)
                 wellformed_body = isinstance(rq[1], (dict, str))
+                if isinstance(rq[1], dict) and "exitCode" in rq[1]:
+                    # an exit code is an integer (the page sends a number; a numeric string is accepted too)
+                    ec = rq[1]["exitCode"]
+                    wellformed_body = (isinstance(ec, int) and not isinstance(ec, bool)) or (isinstance(ec, str) and ec.lstrip("-").isdigit())
                 if not wellformed_body:
                     # a close body that is not a JSON object is malformed: error status, no shutdown
                     if accepted or requested:
-                        out.fail("malformed_request", "close_with_non_object_body_" + ("shut_down_session" if requested else "accepted"),
+                        out.fail("malformed_request", "close_with_malformed_body_" + ("shut_down_session" if requested else "accepted"),
                                  "status %d" % code, detail=detail)
                     n_valid -= 1
                 elif not case["closable"]:
